@@ -569,7 +569,7 @@ func (f *frame) appendBuiltin(x ssa.CallInstruction, args []Val, st State, reach
 	st.alloc.off++
 	nl := c.bind("al", "Int", add(s[2], t[2]))
 	ncap := c.fresh("acap", "Int")
-	c.assume(reach, and(ge(ncap, nl), le(ncap, "4611686018427387904")))
+	c.assume(reach, and(ge(ncap, nl), le(ncap, "281474976710656")))
 	// statically single element?
 	single := false
 	if n, ok := f.staticBackN(com.Args[1]); ok && n == 1 && t[1] == "0" {
